@@ -456,11 +456,23 @@ public:
         // cancel(id) cancels both and getInFlightCount() doesn't double-count.
         id = ++_nextId;
 
-        // Copy handler into std::function BEFORE forwarding into Record.
-        // std::forward<F> may move from handler, so the copy must happen first.
-        std::function<void()> storedFn(handler);
-        _periodicTimers.emplace(id, PeriodicTimer{id, interval, deadline, false, std::move(storedFn)});
-        _records.emplace(id, Record{deadline, Handler{std::forward<F>(handler)}, false});
+        // Every invocation goes through a guard that cancel() closes: an
+        // invocation the run loop has already collected (it sits in the loop's
+        // ready list behind a slower handler) must not start once cancel(id)
+        // has returned true. Same pattern as SteadyTimer's Shared::canceled.
+        auto cancelFlag = std::make_shared<std::atomic<bool>>(false);
+        std::function<void()> userFn(std::forward<F>(handler));
+        std::function<void()> storedFn(
+          [cancelFlag, fn = std::move(userFn)]()
+          {
+            if (!cancelFlag->load(std::memory_order_acquire))
+            {
+              fn();
+            }
+          });
+        _records.emplace(id, Record{deadline, Handler{storedFn}, false});
+        _periodicTimers.emplace(
+          id, PeriodicTimer{id, interval, deadline, false, std::move(storedFn), std::move(cancelFlag)});
         _heap.emplace_back(HeapItem{deadline, id});
         siftUp(_heap.size() - 1);
 
@@ -523,6 +535,13 @@ public:
               _stats.timersCanceled.fetch_add(1, std::memory_order_relaxed);
             }
           }
+        }
+
+        // Close the invocation guard: a firing that was collected before this
+        // point and has not started yet is skipped.
+        if (periodicIt->second.cancelFlag)
+        {
+          periodicIt->second.cancelFlag->store(true, std::memory_order_release);
         }
 
         // Erase the entry to prevent unbounded accumulation
@@ -940,6 +959,7 @@ private:
     TimePoint nextExecution;
     bool canceled{false};
     std::function<void()> handler; ///< Copyable handler for rescheduling
+    std::shared_ptr<std::atomic<bool>> cancelFlag; ///< Set by cancel(); checked before each invocation
   };
 
   static bool less(const HeapItem &a, const HeapItem &b)
